@@ -1451,7 +1451,7 @@ class FileDatastore(GenericBaseDatastore[StoredFileInfo]):
         # The URIs to be checked and a mapping of those URIs to
         # the dataset ID.
         uris_to_check: list[ResourcePath] = []
-        location_map: dict[ResourcePath, DatasetId] = {}
+        location_map: dict[ResourcePath, list[DatasetId]] = {}
 
         location_factory = self.locationFactory
 
@@ -1459,7 +1459,9 @@ class FileDatastore(GenericBaseDatastore[StoredFileInfo]):
         for ref_id, infos in records.items():
             # Key is the dataset Id, value is list of StoredItemInfo
             uris = [info.file_location(location_factory).uri for info in infos]
-            location_map.update({uri: ref_id for uri in uris})
+            # Several datasets can share one artifact.
+            for uri in uris:
+                location_map.setdefault(uri, []).append(ref_id)
 
             # Check the local cache directly for a dataset corresponding
             # to the remote URI.
@@ -1493,18 +1495,19 @@ class FileDatastore(GenericBaseDatastore[StoredFileInfo]):
         dataset_existence: dict[DatasetRef, bool] = {}
 
         uri_existence.update(ResourcePath.mexists(uris_to_check))
-        for uri, exists in uri_existence.items():
-            dataset_id = location_map[uri]
-            ref = id_to_ref[dataset_id]
+        for uri, uri_exists in uri_existence.items():
+            for dataset_id in location_map[uri]:
+                ref = id_to_ref[dataset_id]
+                exists = uri_exists
 
-            # Disassembled composite needs to check all locations.
-            # all_required indicates whether all need to exist or not.
-            if ref in dataset_existence:
-                if all_required:
-                    exists = dataset_existence[ref] and exists
-                else:
-                    exists = dataset_existence[ref] or exists
-            dataset_existence[ref] = exists
+                # Disassembled composite needs to check all locations.
+                # all_required indicates whether all need to exist or not.
+                if ref in dataset_existence:
+                    if all_required:
+                        exists = dataset_existence[ref] and exists
+                    else:
+                        exists = dataset_existence[ref] or exists
+                dataset_existence[ref] = exists
 
         if artifact_existence is not None:
             artifact_existence.update(uri_existence)
